@@ -19,6 +19,7 @@ import (
 	"math/rand"
 	"os"
 	"sort"
+	"strconv"
 	"strings"
 
 	"verif/harness/internal/filt"
@@ -164,6 +165,25 @@ func boom(ctx *dsl.VarFilterContext) bool {
 `
 
 func atomPool() []atom {
+	pool := baseAtoms()
+	seen := map[string]bool{}
+	for _, a := range pool {
+		seen[a.d.Coq()] = true
+	}
+	// the literal spelling of every predicate the shared-spelling families use under a constant name
+	for _, na := range namedAtoms {
+		for _, v := range na.values {
+			d := filt.Call(na.path, na.v, filt.Str(v))
+			if !seen[d.Coq()] {
+				seen[d.Coq()] = true
+				pool = append(pool, atom{d, false})
+			}
+		}
+	}
+	return pool
+}
+
+func baseAtoms() []atom {
 	return []atom{
 		{filt.Sel("Pure", "x"), false},
 		{filt.Sel("Const", "x"), false},
@@ -182,6 +202,7 @@ func atomPool() []atom {
 
 type gen struct {
 	rng   *rand.Rand
+	nbase int // the first nbase atoms are the ones random trees draw from
 	atoms []atom
 	lines []int
 	texts []string
@@ -253,7 +274,7 @@ func (g *gen) leaf(allowPanic bool) *filt.DExpr {
 		return g.cmpLeaf()
 	}
 	for {
-		a := g.atoms[g.rng.Intn(len(g.atoms))]
+		a := g.atoms[g.rng.Intn(g.nbase)]
 		if a.panics && !allowPanic {
 			continue
 		}
@@ -318,16 +339,233 @@ type ruleCase struct {
 	Accept  []int    `json:"accept"`        // site indices (I) reported, in report order
 	Atom    int      `json:"atom"`          // index into the atom pool, or -1
 	Cmp     *cmpInfo `json:"cmp,omitempty"` // comparison families: what is compared
-	d       *filt.DExpr
-	solo    bool   // run in its own engine (may panic or may fail to load)
-	wantJ   int    // probe function the rule is bound to (members of a law family share it: same site facts)
-	group   string // rules with the same group key share an engine
+	// shared-spelling families: the group's local constant declarations, the file it lives in (and that file's
+	// file-level constants), the instantiated tree for the oracle, and the result of loading the group alone
+	Locals     string            `json:"locals,omitempty"`
+	FileNo     int               `json:"file_no"`
+	FileConsts string            `json:"file_consts,omitempty"`
+	Tree       *otree            `json:"tree,omitempty"`
+	Alone      *aloneRes         `json:"alone,omitempty"`
+	Values     map[string]string `json:"values,omitempty"`
+	d          *filt.DExpr
+	whereSrc   string // the Where() argument as written, when it is not d.Go() (a call of a group-local macro)
+	solo       bool   // run in its own engine (may panic or may fail to load)
+	wantJ      int    // probe function the rule is bound to (members of a law family share it: same site facts)
+	group      string // rules with the same group key share an engine
+}
+
+// ---------------------------------------------------------------- shared-spelling families
+//
+// One rules file (or two files loaded into one engine) holds several groups whose Where() expressions are spelled
+// identically over named constants (`m["x"].Type.Size > limit`, `m["x"].Text.Matches(pat)`); every group gives the names
+// its own values through function-local constant declarations, some names are file-level constants that only some groups
+// shadow. irconv folds the values into the IR, so the groups mean different filters although their source text is equal.
+
+type aloneRes struct {
+	Accept  []int  `json:"accept"`
+	LoadErr string `json:"load_err,omitempty"`
+	Panic   string `json:"panic,omitempty"`
+}
+
+// otree: the instantiated tree in the form the check's oracle evaluates (comparisons by the Go operator on go/types
+// values, other predicates by their separately measured verdict vectors)
+type otree struct {
+	K    string  `json:"k"` // not and or cmp atom
+	X    *otree  `json:"x,omitempty"`
+	Y    *otree  `json:"y,omitempty"`
+	Kind int     `json:"kind"`
+	Var  string  `json:"var,omitempty"`
+	Tok  string  `json:"tok,omitempty"` // the operator as written: <var value> Tok <constant> after mirroring a constant on the left
+	Int  *int64  `json:"int,omitempty"`
+	Str  *string `json:"str,omitempty"`
+	Atom int     `json:"atom"`
+}
+
+type namedAtom struct {
+	path, v, name string
+	values        []string
+}
+
+var namedAtoms = []namedAtom{
+	{"Text.Matches", "x", "pat", []string{"^[a-z]", "^[0-9]", "^\"", "a"}},
+	{"Text.Matches", "y", "pat", []string{"^[a-z]", "^[0-9]", "^\"", "a"}},
+	{"Type.Is", "x", "typ", []string{"int", "string", "int64", "uint8"}},
+	{"Type.Is", "y", "typ", []string{"int", "string", "int64", "uint8"}},
+	{"Type.ConvertibleTo", "x", "typ", []string{"int", "string", "int64", "uint8"}},
+	{"Type.Underlying.Is", "y", "typ", []string{"int", "string", "int64", "uint8"}},
+	{"Type.OfKind", "x", "kind", []string{"integer", "unsigned", "numeric", "signed"}},
+	{"Node.Is", "x", "tag", []string{"Ident", "BasicLit", "CallExpr", "SelectorExpr"}},
+	{"Node.Is", "y", "tag", []string{"Ident", "BasicLit", "CallExpr", "SelectorExpr"}},
+	{"Contains", "x", "sub", []string{"gv", "K", "s", "1"}},
+}
+
+var cmpConstName = []string{"ln", "limit", "num", "name"}
+
+// typedConst: names handed to predicates whose argument irconv reads with toStringValue (needs the type `string`)
+var typedConst = map[string]bool{"pat": true, "typ": true, "kind": true, "tag": true, "sub": true}
+
+type nval struct {
+	z   int64
+	s   string
+	str bool
+}
+
+func (v nval) golit() string {
+	if v.str {
+		return fmt.Sprintf("%q", v.s)
+	}
+	return fmt.Sprint(v.z)
+}
+
+// namedLeaf: a comparison or predicate whose constant is spelled as a name
+func (g *gen) namedLeaf() *filt.DExpr {
+	if g.rng.Intn(10) < 6 {
+		kind := g.rng.Intn(4)
+		tok := cmpToks[g.rng.Intn(6)]
+		v := []string{"x", "y"}[g.rng.Intn(2)]
+		var c *filt.DExpr
+		if kind == 3 {
+			c = filt.RawStr(cmpConstName[kind], "")
+		} else {
+			c = filt.RawInt(cmpConstName[kind], 0)
+		}
+		if g.rng.Intn(5) == 0 {
+			return filt.Bin(cmpToks[g.rng.Intn(2)], c, operand(kind, v))
+		}
+		if (kind == 1 || kind == 2) && g.rng.Intn(4) == 0 {
+			v = "zs"
+		}
+		return filt.Bin(tok, operand(kind, v), c)
+	}
+	a := namedAtoms[g.rng.Intn(len(namedAtoms))]
+	return filt.Call(a.path, a.v, filt.RawStr(a.name, ""))
+}
+
+func (g *gen) namedTree(depth int) *filt.DExpr {
+	if depth <= 1 {
+		return g.namedLeaf()
+	}
+	sub := func() *filt.DExpr {
+		t := g.namedTree(depth - 1 - g.rng.Intn(2))
+		if t.K == "binary" {
+			return filt.Paren(t)
+		}
+		return t
+	}
+	switch g.rng.Intn(5) {
+	case 0:
+		return filt.Not(sub())
+	case 1, 2:
+		return filt.And(sub(), sub())
+	default:
+		return filt.Or(sub(), sub())
+	}
+}
+
+func namesOf(d *filt.DExpr, into map[string]bool) {
+	if d == nil {
+		return
+	}
+	if d.Raw != "" {
+		into[d.Raw] = true
+	}
+	namesOf(d.X, into)
+	namesOf(d.Y, into)
+	for _, a := range d.Args {
+		namesOf(a, into)
+	}
+}
+
+// inst: the template with every named constant replaced by the group's value (the spelling stays the name)
+func inst(d *filt.DExpr, vals map[string]nval) *filt.DExpr {
+	if d == nil {
+		return nil
+	}
+	c := *d
+	if d.Raw != "" {
+		c.Z, c.S = vals[d.Raw].z, vals[d.Raw].s
+	}
+	c.X, c.Y = inst(d.X, vals), inst(d.Y, vals)
+	c.Args = nil
+	for _, a := range d.Args {
+		c.Args = append(c.Args, inst(a, vals))
+	}
+	return &c
+}
+
+// literal: the same expression with the values written out (the key under which a predicate's verdicts were measured)
+func literal(d *filt.DExpr) *filt.DExpr {
+	if d == nil {
+		return nil
+	}
+	c := *d
+	c.Raw = ""
+	c.X, c.Y = literal(d.X), literal(d.Y)
+	c.Args = nil
+	for _, a := range d.Args {
+		c.Args = append(c.Args, literal(a))
+	}
+	return &c
+}
+
+var mirrorTok = map[string]string{"LSS": "GTR", "GTR": "LSS", "LEQ": "GEQ", "GEQ": "LEQ", "EQL": "EQL", "NEQ": "NEQ"}
+
+func kindOfOperand(d *filt.DExpr) int {
+	switch d.Path {
+	case "Line":
+		return 0
+	case "Type.Size":
+		return 1
+	case "Value.Int":
+		return 2
+	case "Text":
+		return 3
+	}
+	return -1
+}
+
+func oracleTree(d *filt.DExpr, atomIndex map[string]int) *otree {
+	switch d.K {
+	case "paren":
+		return oracleTree(d.X, atomIndex)
+	case "unary":
+		return &otree{K: "not", X: oracleTree(d.X, atomIndex)}
+	case "binary":
+		if d.Tok == "LAND" || d.Tok == "LOR" {
+			k := "and"
+			if d.Tok == "LOR" {
+				k = "or"
+			}
+			return &otree{K: k, X: oracleTree(d.X, atomIndex), Y: oracleTree(d.Y, atomIndex)}
+		}
+		op, c, tok := d.X, d.Y, d.Tok
+		if d.X.K == "int" || d.X.K == "str" {
+			op, c, tok = d.Y, d.X, mirrorTok[d.Tok]
+		}
+		o := &otree{K: "cmp", Kind: kindOfOperand(op), Var: op.Var, Tok: tok}
+		if c.K == "int" {
+			z := c.Z
+			o.Int = &z
+		} else {
+			sv := c.S
+			o.Str = &sv
+		}
+		return o
+	default:
+		i, ok := atomIndex[literal(d).Coq()]
+		if !ok {
+			fmt.Fprintf(os.Stderr, "no measured atom for %s\n", literal(d).Go())
+			os.Exit(3)
+		}
+		return &otree{K: "atom", Atom: i}
+	}
 }
 
 func main() {
 	seed := flag.Int64("seed", 1, "PRNG seed")
 	ntrees := flag.Int("trees", 300, "random trees")
 	nfam := flag.Int("families", 24, "law families")
+	nshared := flag.Int("shared", 8, "random-tree shared-spelling families (groups with equally spelled filters over differently valued named constants), on top of one family per kind of constant-carrying filter")
 	tmp := flag.String("tmp", "", "scratch directory")
 	flag.Parse()
 	enc := json.NewEncoder(os.Stdout)
@@ -363,7 +601,7 @@ func main() {
 			textSet[f.TextY] = true
 		}
 	}
-	g := &gen{rng: rng, atoms: atomPool()}
+	g := &gen{rng: rng, atoms: atomPool(), nbase: len(baseAtoms())}
 	for l := range lineSet {
 		g.lines = append(g.lines, l)
 	}
@@ -470,7 +708,187 @@ func main() {
 			rc.Cmp = ci
 		}
 	}
+	// ---- shared-spelling families
+	famIndex = -1
+	atomIndex := map[string]int{}
+	for i, a := range g.atoms {
+		atomIndex[a.d.Coq()] = i
+	}
+	const G = 6
+	type sharedFam struct {
+		members  []*ruleCase
+		fileSrc  [2]string // file-level constant declarations per file
+		twoFiles bool
+	}
+	var sharedFams []*sharedFam
+	// values that occur at the probe sites (so that == hits something and orderings split the sites)
+	var sizePool, numPool []int64
+	{
+		ss, ns := map[int64]bool{}, map[int64]bool{}
+		for i := range siteSpecs {
+			fa := factsAt[[2]int{i, 0}]
+			for _, v := range []val{fa.X, fa.Y} {
+				if v.Size != nil {
+					ss[*v.Size] = true
+				}
+				if v.Int != nil {
+					if z, err := strconv.ParseInt(*v.Int, 10, 64); err == nil {
+						ns[z] = true
+					}
+				}
+			}
+		}
+		for z := range ss {
+			sizePool = append(sizePool, z)
+		}
+		for z := range ns {
+			numPool = append(numPool, z)
+		}
+		sort.Slice(sizePool, func(a, b int) bool { return sizePool[a] < sizePool[b] })
+		sort.Slice(numPool, func(a, b int) bool { return numPool[a] < numPool[b] })
+	}
+	valueFor := func(name string, j int) nval {
+		switch name {
+		case "ln":
+			fa := factsAt[[2]int{rng.Intn(len(siteSpecs)), j}]
+			return nval{z: int64(fa.LineX + rng.Intn(3) - 1)}
+		case "limit":
+			return nval{z: sizePool[rng.Intn(len(sizePool))]}
+		case "num":
+			return nval{z: numPool[rng.Intn(len(numPool))]}
+		case "name":
+			return nval{s: g.texts[rng.Intn(len(g.texts))], str: true}
+		}
+		for _, na := range namedAtoms {
+			if na.name == name {
+				return nval{s: na.values[rng.Intn(len(na.values))], str: true}
+			}
+		}
+		panic("unknown constant name " + name)
+	}
+	declare := func(name string, v nval) string {
+		if typedConst[name] {
+			return fmt.Sprintf("const %s string = %s\n", name, v.golit())
+		}
+		return fmt.Sprintf("const %s = %s\n", name, v.golit())
+	}
+	// every kind of filter whose IR carries a folded constant, bare (constant on either side for comparisons, a list
+	// capture for the two kinds that lift), then random trees over them
+	var bare []*filt.DExpr
+	for kind := 0; kind < 4; kind++ {
+		c := filt.RawInt(cmpConstName[kind], 0)
+		if kind == 3 {
+			c = filt.RawStr(cmpConstName[kind], "")
+		}
+		v := []string{"x", "y"}[rng.Intn(2)]
+		bare = append(bare, filt.Bin(cmpToks[rng.Intn(6)], operand(kind, v), c), filt.Bin(cmpToks[rng.Intn(2)], c, operand(kind, v)))
+		if kind == 1 || kind == 2 {
+			bare = append(bare, filt.Bin(cmpToks[2+rng.Intn(4)], operand(kind, "zs"), c))
+		}
+	}
+	for _, a := range namedAtoms {
+		bare = append(bare, filt.Call(a.path, a.v, filt.RawStr(a.name, "")))
+	}
+	for f := 0; f < len(bare)+*nshared; f++ {
+		fam := fmt.Sprintf("shared%d", f)
+		var tmpl *filt.DExpr
+		if f < len(bare) {
+			tmpl = bare[f]
+		} else {
+			tmpl = g.namedTree(2 + rng.Intn(2))
+		}
+		used := map[string]bool{}
+		namesOf(tmpl, used)
+		var names []string
+		for n := range used {
+			names = append(names, n)
+		}
+		sort.Strings(names)
+		sf := &sharedFam{twoFiles: f%2 == 1}
+		// every fourth family reaches the filter through a group-local macro function `cond` (expanded by irconv):
+		// the call is spelled identically in all groups, the bodies differ in their literal constants
+		macro := f%4 == 2
+		// which names are file-level constants (shadowed by some groups only)
+		fileLevel := map[string]bool{}
+		fileVals := [2]map[string]nval{{}, {}}
+		for _, n := range names {
+			if n != "ln" && rng.Intn(3) == 0 { // (a line constant is only meaningful for one probe column)
+				fileLevel[n] = true
+				for fi := 0; fi < 2; fi++ {
+					v := valueFor(n, (f*G)%W)
+					fileVals[fi][n] = v
+					sf.fileSrc[fi] += declare(n, v)
+				}
+			}
+		}
+		var prevVals map[string]nval
+		for k := 0; k < G; k++ {
+			j := (f*G + k) % W
+			fileNo := 0
+			if sf.twoFiles && k >= G/2 {
+				fileNo = 1
+			}
+			var vals map[string]nval
+			var locals string
+			for try := 0; try < 6; try++ {
+				vals = map[string]nval{}
+				locals = ""
+				for _, n := range names {
+					if !macro && fileLevel[n] && rng.Intn(2) == 0 {
+						vals[n] = fileVals[fileNo][n]
+						continue
+					}
+					v := valueFor(n, j)
+					for macro && !v.str && v.z < 0 {
+						// irconv's macro expansion copies the body and re-creates constant values for literals only:
+						// a negative constant (`-3`: a unary expression) inside a macro body is refused at load
+						v = valueFor(n, j)
+					}
+					vals[n] = v
+					locals += "\t" + declare(n, v)
+				}
+				// neighbouring groups get different values (a line constant alone differs anyway: other column)
+				differs := k == 0
+				if k > 0 {
+					for _, n := range names {
+						if n != "ln" && prevVals[n] != vals[n] {
+							differs = true
+						}
+					}
+				}
+				if differs {
+					break
+				}
+			}
+			prevVals = vals
+			d := inst(tmpl, vals)
+			whereSrc := ""
+			if macro {
+				// (irconv cannot see constant values of identifiers inside a macro body: the body spells the literals)
+				d = literal(d)
+				body := strings.NewReplacer(`m["x"]`, "x", `m["y"]`, "y", `m["zs"]`, "zs").Replace(d.Go())
+				locals = "\tcond := func(x, y, zs dsl.Var) bool { return " + body + " }\n"
+				whereSrc = `cond(m["x"], m["y"], m["zs"])`
+			}
+			c := &ruleCase{K: "rule", Idx: len(cases), Family: fam, Role: fmt.Sprintf("g%d", k), Src: d.Go(), Coq: d.Coq(), Atom: -1, d: d, whereSrc: whereSrc,
+				Accept: []int{}, Locals: locals, FileNo: fileNo, FileConsts: sf.fileSrc[fileNo], Tree: oracleTree(d, atomIndex),
+				Values: map[string]string{}, wantJ: j, group: "shared", solo: false}
+			for n, v := range vals {
+				c.Values[n] = v.golit()
+			}
+			if macro {
+				c.Src = whereSrc
+			}
+			cases = append(cases, c)
+			sf.members = append(sf.members, c)
+		}
+		sharedFams = append(sharedFams, sf)
+	}
+
 	for _, c := range cases {
+		if c.group == "shared" {
+			continue
+		}
 		if hasPanicAtom(c.d) || strings.HasPrefix(c.Role, "c") && c.Role != "cEQL" && c.Role != "cNEQ" && strings.HasPrefix(c.Family, "cmp") || c.Role == "mixed" {
 			c.solo = true
 		}
@@ -535,7 +953,7 @@ func main() {
 	groups := map[string][]*ruleCase{}
 	var order []string
 	for _, c := range cases {
-		if c.solo {
+		if c.solo || c.group == "shared" {
 			continue
 		}
 		if _, ok := groups[c.group]; !ok {
@@ -559,6 +977,62 @@ func main() {
 			runBatch([]*ruleCase{c})
 		}
 	}
+	// ---- shared-spelling families: all groups of a family in one engine (one or two rules files), then each group alone
+	runFiles := func(members []*ruleCase, fileSrc [2]string) (accept map[int][]int, loadErr, panicMsg string) {
+		accept = map[int][]int{}
+		var perFile [2][]filt.Rule
+		idx := map[string]*ruleCase{}
+		for _, c := range members {
+			c.J = c.wantJ
+			name := fmt.Sprintf("g%d", c.Idx)
+			idx[name] = c
+			perFile[c.FileNo] = append(perFile[c.FileNo], filt.Rule{Name: name, Pattern: fmt.Sprintf("p%d($x, $y, $*zs)", c.J), Where: c.d, WhereSrc: c.whereSrc, Locals: c.Locals})
+		}
+		var names []string
+		srcs := map[string]string{}
+		for fi := 0; fi < 2; fi++ {
+			if len(perFile[fi]) == 0 {
+				continue
+			}
+			name := fmt.Sprintf("rules%d.go", fi)
+			names = append(names, name)
+			srcs[name] = filt.RulesFile("\n"+fileSrc[fi], perFile[fi])
+			if irf, cerr := filt.ConvertRules(srcs[name]); cerr == nil {
+				for gi := range irf.RuleGroups {
+					if c := idx[irf.RuleGroups[gi].Name]; c != nil && len(irf.RuleGroups[gi].Rules) == 1 && c.IR == "" {
+						c.IR = filt.CoqFExpr(irf.RuleGroups[gi].Rules[0].WhereExpr)
+					}
+				}
+			}
+		}
+		e, lerr := filt.LoadFiles(t.Fset, names, srcs)
+		if lerr != nil {
+			return accept, lerr.Error(), ""
+		}
+		reports, pmsg := hutil.Run(e, t, 0, "", nil)
+		for _, r := range reports {
+			c := idx[r.Group]
+			s := byPos[r.Pos]
+			if c == nil || s == nil || s.J != c.J {
+				fmt.Fprintf(os.Stderr, "report cannot be attributed: %+v\n", r)
+				os.Exit(3)
+			}
+			accept[c.Idx] = append(accept[c.Idx], s.I)
+		}
+		return accept, "", pmsg
+	}
+	for _, sf := range sharedFams {
+		acc, lerr, pmsg := runFiles(sf.members, sf.fileSrc)
+		for _, c := range sf.members {
+			c.Accept = append([]int{}, acc[c.Idx]...)
+			c.LoadErr, c.Panic = lerr, pmsg
+		}
+		for _, c := range sf.members {
+			a, le, pm := runFiles([]*ruleCase{c}, sf.fileSrc)
+			c.Alone = &aloneRes{Accept: append([]int{}, a[c.Idx]...), LoadErr: le, Panic: pm}
+		}
+	}
+
 	for _, c := range cases {
 		enc.Encode(c)
 	}
